@@ -109,6 +109,10 @@ FRAGMENTS = [
     ("ov_source", "from pedal.source.feedbacks import syntax_error, blank_source\nsyntax_error.override(title='OV-SYNTAX')\nblank_source.override(title='OV-BLANK', message_template='nothing here')\n"),
     ("ov_assert", "from pedal.assertions.feedbacks import assert_equal as ae_fb\nae_fb.override(title='OV-ASSERT')\n"),
     ("ov_bad", "gently.override(title='OV-HALF', no_such_attribute=1)\n"),
+    # the same field of the same class overridden TWICE in one grading (a course prelude, then the problem script):
+    # the backup must stay the ORIGINAL value
+    ("ov_twice", "from pedal.tifa.feedbacks import unused_variable\nunused_variable.override(title='OV-FIRST')\nunused_variable.override(title='OV-SECOND')\ngently.override(title='OV-G1')\ngently.override(title='OV-G2', priority='low')\n"),
+    ("ov_twice_none", "Feedback.override(priority='high')\nFeedback.override(priority='low')\n"),
     ("ov_correct", "from pedal.resolvers.feedbacks import set_correct_no_errors\nset_correct_no_errors.override(title='OV-DONE', message='all good')\n"),
     # pools (seeded: an unseeded A/B choice depends on the interpreter's random state by design)
     ("pools", "from pedal.core.commands import set_pools\nimport random\nrandom.seed(3)\nset_pools(2)\ngently.override_for_pool('A', title='POOL-A')\ngently.override_for_pool('B', title='POOL-B')\n"),
@@ -211,6 +215,8 @@ CORPUS = [
     ("pools-then-plain", [G(["pools", "gently"], "ok"), G(["gently"], "ok")]),
     ("pools-one-then-error", [G(["pools_one"], "ok"), G(["nothing"], "zerodiv")]),
     ("override-half-failed", [G(["ov_bad"], "ok"), G(["gently"], "ok")]),
+    ("override-twice-then-plain", [G(["ov_twice"], "unused"), G(["gently"], "unused")]),
+    ("override-none-twice-then-plain", [G(["ov_twice_none", "gently"], "ok"), G(["gently", "explain"], "ok")]),
     ("crash-after-override", [G(["ov_gently", "ov_tifa", "crash_zero"], "unused"), G(["gently"], "unused")]),
     ("suppress-then-error", [G(["suppress_runtime", "suppress_algo"], "zerodiv"), G(["nothing"], "zerodiv")]),
     ("formatter-then-error", [G(["formatter_html"], "nameerr"), G(["nothing"], "nameerr")]),
